@@ -81,6 +81,15 @@ example : retryLoop .do_ {} [.nothing, .release, .nothing] =
 /-- and an undisturbed loop does retry -/
 example : (retryLoop .do_ {} [.nothing, .nothing]).2 = ([.wDo, .wDo, .wDo], .ok) := by decide
 
+/-- **abandoned_blocking_wire_never_reused.** A shared-client blocking command that returns early
+    with a non-Redis error (its caller's context was cancelled, a deadline, a transport error) has
+    its wire closed BEFORE it is stored, and the pool discards it; only a wire whose command was
+    answered stays in the pool. So the pool never hands a connection with somebody's command still
+    pending to the next Dedicate() — the precondition of `exclusive_wire`. -/
+theorem abandoned_blocking_wire_never_reused :
+    blockingCalls true = [.wDo, .wClose, .poolStore, .poolDiscard] ∧ blockingKeepsWire true = false ∧
+    blockingCalls false = [.wDo, .poolStore] ∧ blockingKeepsWire false = true := by decide
+
 /-! ### the cluster client's dedicated client -/
 
 /-- **released_cluster_client_rejects_every_method.** A released or closed cluster dedicated client —
